@@ -28,7 +28,7 @@ ASSUMPTIONS = [
     "out of reach for CrossHair: ~7 s per path); the string-level statement is the K query",
     "closure is syntactic: a name that resolves to a *wrong* same-named class is C18's subject",
 ]
-BOUNDS = {"quick": "K: paths <= 6 chars; C: 2592 configurations", "thorough": "K: paths <= 7 chars; C: 2592 configurations"}
+BOUNDS = {"quick": "K: paths <= 6 chars; C: 3456 configurations", "thorough": "K: paths <= 7 chars; C: 3456 configurations"}
 MANIFEST = {
     "text": "Bounded symbolic: the matching heuristic is decided by z3 for all paths within the bound; reference/import "
             "closure over all outputs is decided by CrossHair for every configuration of the bounded model grammar.",
